@@ -214,6 +214,10 @@ class Impl:
                 setattr(self.cfg, op[1], src)
             elif k == 'assign':
                 setattr(self.cfg, op[1], list(op[2]) if isinstance(op[2], list) else op[2])
+            elif k == 'badassign':
+                # a value the option's type refuses (ValueError): no change
+                setattr(self.cfg, op[1], op[2])
+                self.log.append(['exc', 'accepted-a-bad-value'])
             elif k == 'lop':
                 lst = getattr(self.cfg, op[1])
                 name = op[2]
@@ -301,6 +305,8 @@ def driver_lines(case):
                 lines.append('lop %d pop' % n)
             elif name == 'setitem':
                 lines.append('lop %d setitem %d %s' % (n, op[3], hexs(str(op[4]))))
+        elif k == 'badassign':
+            lines.append('conf -')        # an assignment the option's type refuses is, for the model, nothing at all
         elif k == 'save':
             lines.append('save')
         elif k == 'ack':
@@ -336,6 +342,8 @@ def parse_model(outs, marks, case):
                     o.append([item])
         elif op_out == 'not-a-list':
             o.append(['exc', 'AttributeError'])
+        if i > 0 and case['ops'][i - 1][0] == 'badassign':
+            o.append(['exc', 'ValueError'])
         reads = {}
         for n, r in zip(NAMES, rest[1:]):
             if r.startswith('s'):
